@@ -171,6 +171,25 @@ func (e *Engine) staticCall(fr *frame, x *ssa.Call, fn *ssa.Function, args []Val
 			if !strings.HasSuffix(key, ca.Callee) {
 				continue
 			}
+			if ca.Check {
+				// an obligation about this call, stated by the caller's contract (the caller's named locals are visible)
+				env := mkEnv(st, nil)
+				if b := x.Block(); b != nil {
+					for name, sv := range e.localsAt(fr, b, st) {
+						if _, taken := env.vars[name]; !taken {
+							env.vars[name] = sv
+						}
+					}
+				}
+				goal, facts := e.clauseGoal(env, ca.Cl)
+				s3 := st
+				if len(facts) > 0 {
+					s3 = st.clone()
+					s3.facts = append(s3.facts, facts...)
+				}
+				e.obligeNoAssume(s3, fr, "callreq", ShortKey(key)+":"+clauseName(ca.Cl, 0), goal)
+				continue
+			}
 			e.noteAbstract("assumed at calls of " + ca.Callee + ": " + ca.Cl.Text)
 			if ca.Post {
 				posts = append(posts, ca)
